@@ -18,7 +18,7 @@ import vlib
 from framework import graph_replay
 from vlib import MachineryError
 
-ROOTS = ["detach", "start", "startp", "claimed", "join", "fctor", "retfut"]
+ROOTS = ["detach", "start", "startp", "claimed", "join", "fctor", "retfut", "poolrun"]
 KINDS = ["co", "da", "dd", "st", "fc", "rf", "pa", "pd"]
 DRIVER = ["Setup", "Create", "RootStart", "DropObj", "Resolve", "Finish"]
 INTERNAL = ["BodyBegin", "AwaitExt", "SpawnCreate", "Launch", "StartReturn", "AwaitLoc", "Observe", "QueuedResume",
@@ -177,6 +177,25 @@ def make_proj(ps):
     return proj
 
 
+def must_take(ps):
+    """vacuity guard: the actions the programs of a family are able to exercise"""
+    used = {k for p in ps for b in p["body"] for (k, a) in b}
+    roots = {p["root"] for p in ps}
+    need = {
+        "AwaitExt": "aw" in used,
+        "SpawnCreate": bool(used & (set(KINDS) - {"rf"})),
+        "Launch": bool(used & set(KINDS)),
+        "StartReturn": bool(used & {"st", "fc", "rf"}),
+        "AwaitLoc": bool(used & {"st", "fc", "rf", "pa", "pd"}),
+        "Observe": bool(used & {"co", "st", "fc", "rf", "pa", "pd"}),
+        "QueuedResume": "da" in used,
+        "Flush": bool(used & {"da", "dd", "pa", "pd"}),
+        "JoinStep": "join" in roots,
+        "RootSubscribe": bool(roots - {"join", "detach", "claimed"}),
+    }
+    return list(DRIVER) + [a for a in INTERNAL if need.get(a, True)]
+
+
 def check_deterministic(g, tag):
     """the library is sequential: while an internal action is pending it is the only thing that can happen"""
     internal = set(INTERNAL)
@@ -198,14 +217,7 @@ def run(ctx):
 
         def hdr(k, st0):
             return {"alloc": "count" if k % 2 else "new", "other": (k // 2) % 2 == 1}
-        must = list(DRIVER) + [a for a in INTERNAL if not (tag == "single" and a in (
-            "SpawnCreate", "Launch", "StartReturn", "AwaitLoc", "Observe", "QueuedResume", "Flush"))]
-        if tag == "chain":
-            must = [a for a in must if a not in ("StartReturn", "AwaitLoc", "QueuedResume", "Flush")]
-        if not any(p["root"] == "join" for p in ps):
-            must = [a for a in must if a != "JoinStep"]
-        if not any(p["root"] not in ("join", "detach", "claimed") for p in ps):
-            must = [a for a in must if a != "RootSubscribe"]
+        must = must_take(ps)
         res, g = graph_replay(ctx, "Async", "Async", "Async_base.cfg", tag, rp, make_proj(ps), header_fn=hdr,
                               merge_re=MERGE_RE, must_take=must, defs={"Programs": tla_programs(ps)},
                               extra_random=100 if ctx.quick else 1000, tlc_kw={"workers": TLC_WORKERS})
@@ -216,7 +228,7 @@ def run(ctx):
     ctx.assume("'completion on another thread' = the promise of the awaited future is called on a fresh thread "
                "(joined before the next step) or on the controller thread while the thread that called join() is "
                "blocked; interleavings inside one library call are not explored here (C01-C03 do that for future)")
-    ctx.assume("thread_pool::run(async) is start(promise) executed by a pool thread; the pool side is covered by C11, "
-               "the async side by the startp / pa / pd start modes")
+    ctx.assume("thread_pool::run(async) is replayed as its closure (async object and promise moved in, start(promise) "
+               "called) executed on a fresh thread instead of a pool worker; the pool's queueing / stopping is C11")
     ctx.assume("the exact identity of a co_awaiter / temporary future bound to a coroutine is not observable from "
                "outside: the projection only distinguishes null / native code's future / a local future / other")
